@@ -135,7 +135,7 @@ Ltac step_cases H :=
         unfold step_req in H; destruct (s_spc x) eqn:Hpc; try discriminate;
         destruct (s_closed x) eqn:Hcl; try discriminate;
         destruct rq as [name att np cfgok runok|name];
-        [ destruct cfgok; [destruct (0 <? maxports _)%Z eqn:Hmax; [destruct (maxports _ <? s_ports x + np)%Z eqn:Hq|]|]; inv1 H
+        [ destruct cfgok; [destruct (0 <? maxports _)%Z eqn:Hmax; [destruct (maxports _ <? s_ports x + pt_ports np)%Z eqn:Hq|]|]; inv1 H
         | destruct (alookup name (s_proxies x)) as [pid|] eqn:Hown; inv1 H ]
       | destruct (alookup s0 (sessions _)) as [x|] eqn:Hx; [|discriminate];
         unfold step_eof in H; destruct (s_spc x) eqn:Hpc; try discriminate; inv1 H
@@ -151,7 +151,7 @@ Ltac step_cases H :=
         try discriminate;
         [ destruct (s_closed x) eqn:Hcl; [|discriminate]; inv1 H
         | destruct (alookup name (pxys _)) as [q|] eqn:Hex; inv1 H
-        | destruct runok; inv1 H
+        | destruct (andb runok _) eqn:Hrun; inv1 H
         | destruct (alookup name (pxys _)) as [q|] eqn:Hex; inv1 H
         | inv1 H
         | inv1 H
@@ -186,6 +186,7 @@ Lemma invA_close : forall st pid, invA st -> invA (close_proxy st pid).
 Proof.
   intros st pid [I1 I2 I0 I3 I4 I5 I6]. unfold close_proxy.
   destruct (alookup pid (proxies st)) as [q|] eqn:Hq; [|constructor; assumption].
+  eapply invA_same with (st := set_proxies st (aset pid (p_close q) (proxies st))); try reflexivity; try (simpl; lia).
   assert (OB : forall s n p, owned_by st s n p -> owned_by (set_proxies st (aset pid (p_close q) (proxies st))) s n p).
   { intros s n p (pr & Hp & Ho & Hn). unfold owned_by; simpl. lk.
     destruct (N.eqb_spec p pid); subst; [exists (p_close q); replace pr with q in * by congruence; auto|exists pr; auto]. }
@@ -334,7 +335,7 @@ Proof.
     assert (F : alookup (next_pid st) (proxies st) = None).
     { destruct (alookup (next_pid st) (proxies st)) eqn:E; [|reflexivity]. apply I2 in E. lia. }
     assert (OB : forall s n p, owned_by st s n p ->
-       exists pr, alookup p (aset (next_pid st) (mkP s0 name att np PRunning) (proxies st)) = Some pr /\ p_owner pr = s /\ p_name pr = n).
+       exists pr, alookup p (aset (next_pid st) (mkP s0 name att (pt_ports np) (pt_vis np) PRunning) (proxies st)) = Some pr /\ p_owner pr = s /\ p_name pr = n).
     { intros s n p (pr & Hp & Ho & Hn). exists pr. lk. destruct (N.eqb_spec p (next_pid st)); [subst; congruence|auto]. }
     constructor; unfold owned_by; simpl; intros.
     + lk. eqd; eauto.
@@ -348,7 +349,7 @@ Proof.
       * destruct (I3 _ _ _ _ H H0) as [? H2]. split; [auto|useOB OB H2].
     + lkH H. destruct (N.eqb_spec s s0); subst.
       * inv1 H. unfold inflight in H0; simpl in H0. inv1 H0.
-        exists (mkP s0 n att np PRunning). lk. rewrite N.eqb_refl. auto.
+        exists (mkP s0 n att (pt_ports np) (pt_vis np) PRunning). lk. rewrite N.eqb_refl. auto.
       * pose proof (I4 _ _ _ _ H H0) as H2. useOB OB H2.
     + lk. destruct (N.eqb_spec s s0); subst; [inv1 H; simpl in H0; discriminate|eauto].
     + destruct (I6 _ _ H) as (pr & y & Hp & Hy & Hr). exists pr. lk.
@@ -500,7 +501,7 @@ Proof.
     apply D1. eapply (J8 _ _ Hz (P0 H0) _ _ Hz1); [tauto|congruence|lia].
 Qed.
 
-Ltac psimpl := cbn [sessions ctls pxys proxies next_sid next_pid addctr maxports put set_sessions set_ctls set_pxys set_proxies set_next_sid set_next_pid set_addctr] in *.
+Ltac psimpl := cbn [sessions ctls pxys proxies next_sid next_pid addctr maxports put set_sessions set_ctls set_pxys set_proxies set_next_sid set_next_pid set_addctr vlis set_vlis] in *.
 
 Lemma invB_same : forall st st',
   sessions st' = sessions st -> ctls st' = ctls st -> addctr st' = addctr st -> next_sid st <= next_sid st' ->
@@ -779,7 +780,7 @@ Lemma same_running : forall st p pr',
     p_owner pr' = p_owner pr /\ p_name pr' = p_name pr.
 Proof. intros. split; [discriminate|]. exists pr'. auto. Qed.
 
-Ltac sess_shape := intros t; cbn [sessions ctls pxys proxies put set_sessions set_ctls set_pxys set_proxies set_next_sid set_next_pid set_addctr]; rewrite ?sessions_close; rewrite ?alookup_aset; reflexivity.
+Ltac sess_shape := intros t; cbn [sessions ctls pxys proxies vlis put set_sessions set_ctls set_pxys set_proxies set_next_sid set_next_pid set_addctr set_vlis]; rewrite ?sessions_close; rewrite ?alookup_aset; reflexivity.
 
 Lemma invR_step : forall st a st' o, invA st -> invR st -> step st a = Some (st', o) -> invR st'.
 Proof.
@@ -857,6 +858,249 @@ Proof.
   intros st a st' o [I IR] H. split; [eapply invA_step; eauto|eapply invR_step; eauto].
 Qed.
 
+Lemma proxies_close_other : forall st pid p, p <> pid ->
+  alookup p (proxies (close_proxy st pid)) = alookup p (proxies st).
+Proof.
+  intros. unfold close_proxy. destruct (alookup pid (proxies st)); [|reflexivity].
+  simpl. lk. destruct (N.eqb_spec p pid); [contradiction|reflexivity].
+Qed.
+
+(* ---------- group F: the proxy in flight is not (yet) in its session's table ---------- *)
+Definition invF (st : state) : Prop :=
+  forall s x n p n', alookup s (sessions st) = Some x -> inflight x = Some (n, p) ->
+    alookup n' (s_proxies x) = Some p -> False.
+
+Lemma invF_upd : forall st st' s x x',
+  invF st -> alookup s (sessions st) = Some x ->
+  (forall t, alookup t (sessions st') = if N.eqb t s then Some x' else alookup t (sessions st)) ->
+  (forall n p, inflight x' = Some (n, p) -> inflight x = Some (n, p) /\ s_proxies x' = s_proxies x) ->
+  invF st'.
+Proof.
+  intros st st' s x x' F Hx Hs Hi t y n p n' Hy Hf Hv. rewrite Hs in Hy. destruct (N.eqb_spec t s).
+  - subst. inv1 Hy. destruct (Hi _ _ Hf) as [A B]. rewrite B in Hv. eapply F; eauto.
+  - eapply F; eauto.
+Qed.
+
+Lemma invF_step : forall st a st' o, invA st -> invF st -> step st a = Some (st', o) -> invF st'.
+Proof.
+  intros st a st' o I F H. step_cases H; qb; try assumption;
+    try (eapply (invF_upd _ _ _ _ _ F Hx);
+         [ sess_shape
+         | unfold inflight; simpl; rewrite ?Hpc; intros n0 p0 Hh; first [discriminate | split; [exact Hh|reflexivity]] ]; fail).
+  - (* ALogin *)
+    intros t y n p n' Hy Hf Hv. cbn [sessions put set_sessions set_next_sid] in Hy. lkH Hy.
+    destruct (N.eqb_spec t (next_sid st)); [inv1 Hy; discriminate|eapply F; eauto].
+  - (* Add replacing an old session *)
+    assert (F1 : invF (put st o' (with_closed (with_runid y None) true))).
+    { eapply (invF_upd _ _ _ _ _ F Hy); [sess_shape|]. unfold inflight; simpl. intros n0 p0 Hh; split; [exact Hh|reflexivity]. }
+    destruct (N.eq_dec s0 o') as [E|E].
+    + subst. replace y with x in * by congruence.
+      eapply (invF_upd _ _ o' _ (with_seq (with_lpc x (LWait o')) (addctr st)) F1); [simpl; lk; rewrite N.eqb_refl; reflexivity| |].
+      * intros t. cbn [sessions ctls pxys proxies put set_sessions set_ctls set_addctr]. rewrite !alookup_aset.
+        destruct (N.eqb_spec t o'); reflexivity.
+      * unfold inflight; simpl. intros n0 p0 Hh; split; [exact Hh|reflexivity].
+    + eapply (invF_upd _ _ s0 x (with_seq (with_lpc x (LWait o')) (addctr st)) F1); [simpl; lk; destruct (N.eqb_spec s0 o'); [contradiction|exact Hx]| |].
+      * intros t. cbn [sessions ctls pxys proxies put set_sessions set_ctls set_addctr]. rewrite !alookup_aset. reflexivity.
+      * unfold inflight; simpl. intros n0 p0 Hh; split; [exact Hh|reflexivity].
+  - (* Run: the fresh proxy is in nobody's table *)
+    intros t y n p n' Hy Hf Hv. cbn [sessions put set_sessions set_proxies set_next_pid set_vlis] in Hy. lkH Hy.
+    destruct (N.eqb_spec t s0); [|eapply F; eauto].
+    subst. inv1 Hy. unfold inflight in Hf; simpl in Hf. inv1 Hf. simpl in Hv.
+    assert (Hr : alookup n' (reg_view x) = Some (next_pid st)) by (unfold reg_view; rewrite Hpc; exact Hv).
+    destruct (A_view _ I _ _ _ _ Hx Hr) as [_ (pr & Hp & _)]. pose proof (A_pid _ I _ _ Hp). lia.
+Qed.
+
+(* ---------- group W: what a session holds is running (converse of R) ---------- *)
+Definition invW (st : state) : Prop :=
+  forall s x n p, alookup s (sessions st) = Some x -> hold x n p ->
+    exists pr, alookup p (proxies st) = Some pr /\ p_status pr = PRunning /\ p_owner pr = s /\ p_name pr = n.
+
+Lemma invW_master : forall st st' s x x' (drop : option N),
+  invW st -> alookup s (sessions st) = Some x ->
+  (forall t, alookup t (sessions st') = if N.eqb t s then Some x' else alookup t (sessions st)) ->
+  (forall p pr, alookup p (proxies st) = Some pr -> Some p <> drop -> alookup p (proxies st') = Some pr) ->
+  (forall n p, hold x' n p -> hold x n p /\ Some p <> drop) ->
+  (forall d pr, drop = Some d -> alookup d (proxies st) = Some pr -> p_owner pr = s) ->
+  invW st'.
+Proof.
+  intros st st' s x x' drop W Hx Hs Hp Hh Hd t y n p Hy Hyh. rewrite Hs in Hy.
+  destruct (N.eqb_spec t s).
+  - subst. inv1 Hy. destruct (Hh _ _ Hyh) as [H1 H2]. destruct (W _ _ _ _ Hx H1) as (pr & A & B & C & D).
+    exists pr. split; [apply Hp; auto|auto].
+  - destruct (W _ _ _ _ Hy Hyh) as (pr & A & B & C & D). exists pr. split; [|auto].
+    apply Hp; auto. intros E. destruct drop as [d|]; [|discriminate]. inv1 E.
+    pose proof (Hd _ _ eq_refl A). congruence.
+Qed.
+
+Lemma proxies_close_eq : forall st pid q, alookup pid (proxies st) = Some q ->
+  proxies (close_proxy st pid) = aset pid (p_close q) (proxies st).
+Proof. intros. unfold close_proxy. rewrite H. reflexivity. Qed.
+
+Lemma close_keeps_others : forall st pid p pr,
+  alookup p (proxies st) = Some pr -> Some p <> Some pid -> alookup p (proxies (close_proxy st pid)) = Some pr.
+Proof. intros. rewrite proxies_close_other; [auto|congruence]. Qed.
+
+Lemma invW_step : forall st a st' o, invA st -> invF st -> invW st -> step st a = Some (st', o) -> invW st'.
+Proof.
+  intros st a st' o I IF W H. step_cases H; qb; try assumption;
+    try (eapply (invW_master _ _ _ _ _ None W Hx);
+         [ sess_shape
+         | simpl; intros; assumption
+         | unfold hold, live_view, inflight; simpl; rewrite ?Hpc; intros n0 p0 Hh; split; [exact Hh|discriminate]
+         | intros; discriminate ]; fail).
+  - (* ALogin *)
+    intros t y n p Hy Hh. cbn [sessions proxies put set_sessions set_next_sid] in *. lkH Hy.
+    destruct (N.eqb_spec t (next_sid st)); [inv1 Hy; unfold hold, live_view, inflight in Hh; simpl in Hh; destruct Hh; discriminate|eauto].
+  - (* CloseProxy of an own name *)
+    eapply (invW_master _ _ _ _ _ (Some pid) W Hx); [sess_shape|simpl; intros; apply close_keeps_others; auto| |].
+    + unfold hold, live_view, inflight; simpl; rewrite ?Hpc. intros n0 p0 [Hh|Hh]; [|discriminate].
+      lkH Hh. destruct (N.eqb_spec n0 name); [discriminate|]. split; [left; exact Hh|].
+      intros E. inv1 E.
+      assert (H1 : hold x name pid) by (left; unfold live_view; rewrite Hpc; exact Hown).
+      assert (H2 : hold x n0 pid) by (left; unfold live_view; rewrite Hpc; exact Hh).
+      destruct (W _ _ _ _ Hx H1) as (pr & A & _ & _ & D). destruct (W _ _ _ _ Hx H2) as (pr' & A' & _ & _ & D'). congruence.
+    + intros d pr E Hd. inv1 E.
+      assert (H1 : hold x name d) by (left; unfold live_view; rewrite Hpc; exact Hown).
+      destruct (W _ _ _ _ Hx H1) as (pr' & A & _ & C & _). congruence.
+  - (* Add replacing an old session *)
+    assert (W1 : invW (put st o' (with_closed (with_runid y None) true))).
+    { eapply (invW_master _ _ _ _ _ None W Hy); [sess_shape|simpl; intros; assumption| |intros; discriminate].
+      unfold hold, live_view, inflight; simpl. intros n0 p0 Hh; split; [exact Hh|discriminate]. }
+    destruct (N.eq_dec s0 o') as [E|E].
+    + subst. replace y with x in * by congruence.
+      eapply (invW_master _ _ o' _ (with_seq (with_lpc x (LWait o')) (addctr st)) None W1); [simpl; lk; rewrite N.eqb_refl; reflexivity| |simpl; intros; assumption| |intros; discriminate].
+      * intros t. cbn [sessions ctls pxys proxies put set_sessions set_ctls set_addctr]. rewrite !alookup_aset.
+        destruct (N.eqb_spec t o'); reflexivity.
+      * unfold hold, live_view, inflight; simpl. intros n0 p0 Hh; split; [exact Hh|discriminate].
+    + eapply (invW_master _ _ s0 x (with_seq (with_lpc x (LWait o')) (addctr st)) None W1); [simpl; lk; destruct (N.eqb_spec s0 o'); [contradiction|exact Hx]| |simpl; intros; assumption| |intros; discriminate].
+      * intros t. cbn [sessions ctls pxys proxies put set_sessions set_ctls set_addctr]. rewrite !alookup_aset. reflexivity.
+      * unfold hold, live_view, inflight; simpl. intros n0 p0 Hh; split; [exact Hh|discriminate].
+  - (* Start *)
+    assert (Hs : s_spc x = SNone) by (apply (A_none _ I _ _ Hx); rewrite Hpc; discriminate).
+    eapply (invW_master _ _ _ _ _ None W Hx); [sess_shape|simpl; intros; assumption| |intros; discriminate].
+    unfold hold, live_view, inflight; simpl; rewrite Hs. intros n0 p0 Hh; split; [exact Hh|discriminate].
+  - (* Run: the new proxy is running and in flight *)
+    assert (F : alookup (next_pid st) (proxies st) = None).
+    { destruct (alookup (next_pid st) (proxies st)) eqn:E; [|reflexivity]. apply (A_pid _ I) in E. lia. }
+    intros t y n p Hy Hh. cbn [proxies sessions put set_sessions set_proxies set_next_pid set_vlis] in *. lkH Hy.
+    destruct (N.eqb_spec t s0).
+    + subst. inv1 Hy. unfold hold, live_view, inflight in Hh; simpl in Hh. destruct Hh as [Hh|Hh].
+      * assert (H1 : hold x n p) by (left; unfold live_view; rewrite Hpc; exact Hh).
+        destruct (W _ _ _ _ Hx H1) as (pr & A & B). exists pr. split; [|exact B]. lk.
+        destruct (N.eqb_spec p (next_pid st)); [subst; congruence|exact A].
+      * inv1 Hh. eexists. lk. rewrite N.eqb_refl. split; [reflexivity|]. simpl. auto.
+    + destruct (W _ _ _ _ Hy Hh) as (pr & A & B). exists pr. split; [|exact B]. lk.
+      destruct (N.eqb_spec p (next_pid st)); [subst; congruence|exact A].
+  - (* pxyManager.Add succeeds *)
+    eapply (invW_master _ _ _ _ _ None W Hx); [sess_shape|simpl; intros; assumption| |intros; discriminate].
+    unfold hold, live_view, inflight; simpl; rewrite ?Hpc. intros n0 p0 [Hh|Hh]; [|discriminate]. split; [|discriminate].
+    simpl in Hh. destruct (N.eqb_spec n0 name); [inv1 Hh; right; reflexivity|left; exact Hh].
+  - (* rollback *)
+    eapply (invW_master _ _ _ _ _ (Some pid) W Hx); [sess_shape|simpl; intros; apply close_keeps_others; auto| |].
+    + unfold hold, live_view, inflight; simpl; rewrite ?Hpc. intros n0 p0 [Hh|Hh]; [|discriminate].
+      split; [left; exact Hh|]. intros E. inv1 E.
+      eapply (IF _ _ name pid n0 Hx); [unfold inflight; rewrite Hpc; reflexivity|exact Hh].
+    + intros d pr E Hd. inv1 E.
+      assert (H1 : hold x name d) by (right; unfold inflight; rewrite Hpc; reflexivity).
+      destruct (W _ _ _ _ Hx H1) as (pr' & A & _ & C & _). congruence.
+  - (* store *)
+    eapply (invW_master _ _ _ _ _ None W Hx); [sess_shape|simpl; intros; assumption| |intros; discriminate].
+    unfold hold, live_view, inflight; simpl; rewrite ?Hpc. intros n0 p0 [Hh|Hh]; [|discriminate]. split; [|discriminate]. left.
+    lkH Hh. simpl. destruct (N.eqb_spec n0 name); exact Hh.
+  - (* teardown picks an entry *)
+    change (if pick =? tn then aremove pick todo' else (tn, tp) :: aremove pick todo')
+      with (aremove pick ((tn, tp) :: todo')).
+    remember ((tn, tp) :: todo') as td eqn:Etd.
+    eapply (invW_master _ _ _ _ _ (Some pid) W Hx); [sess_shape|simpl; intros; apply close_keeps_others; auto| |].
+    + unfold hold, live_view, inflight; simpl; rewrite ?Hpc. intros n0 p0 [Hh|Hh]; [|discriminate].
+      lkH Hh. destruct (N.eqb_spec n0 pick); [discriminate|]. split; [left; exact Hh|].
+      intros E. inv1 E.
+      assert (H1 : hold x pick pid) by (left; unfold live_view; rewrite Hpc; exact Hpick).
+      assert (H2 : hold x n0 pid) by (left; unfold live_view; rewrite Hpc; exact Hh).
+      destruct (W _ _ _ _ Hx H1) as (pr & A & _ & _ & D). destruct (W _ _ _ _ Hx H2) as (pr' & A' & _ & _ & D'). congruence.
+    + intros d pr E Hd. inv1 E.
+      assert (H1 : hold x pick d) by (left; unfold live_view; rewrite Hpc; exact Hpick).
+      destruct (W _ _ _ _ Hx H1) as (pr' & A & _ & C & _). congruence.
+Qed.
+
+(* ---------- group V: the visitor listener table = the running visitor-type proxies ---------- *)
+Record invV (st : state) : Prop := {
+  V_lis : forall n p, alookup n (vlis st) = Some p ->
+            exists pr, alookup p (proxies st) = Some pr /\ p_vis pr = true /\ p_name pr = n /\ p_status pr = PRunning;
+  V_run : forall p pr, alookup p (proxies st) = Some pr -> p_vis pr = true -> p_status pr = PRunning ->
+            alookup (p_name pr) (vlis st) = Some p
+}.
+
+Lemma invV_same : forall st st', proxies st' = proxies st -> vlis st' = vlis st -> invV st -> invV st'.
+Proof. intros st st' Hp Hv [V1 V2]. constructor; rewrite Hp, Hv; auto. Qed.
+
+(* pxy.Close() of a proxy that is running: only its own listener goes *)
+Lemma invV_close : forall st pid q, invV st -> alookup pid (proxies st) = Some q -> p_status q = PRunning ->
+  invV (close_proxy st pid).
+Proof.
+  intros st pid q [V1 V2] Hq Hr. unfold close_proxy. rewrite Hq. constructor; cbn [proxies vlis set_vlis set_proxies]; intros.
+  - assert (Hn : alookup n (vlis st) = Some p /\ (p_vis q = true -> n <> p_name q)).
+    { destruct (p_vis q); [lkH H; destruct (N.eqb_spec n (p_name q)); [discriminate|auto]|split; [exact H|discriminate]]. }
+    destruct Hn as [Hn Hne]. destruct (V1 _ _ Hn) as (pr & A & B & C & D). exists pr. lk.
+    destruct (N.eqb_spec p pid); [|auto]. subst. replace pr with q in * by congruence. exfalso. apply (Hne B). auto.
+  - lkH H. destruct (N.eqb_spec p pid); [subst; inv1 H; simpl in *; discriminate|].
+    pose proof (V2 _ _ H H0 H1) as Hl. destruct (p_vis q) eqn:Eq; [|exact Hl]. lk.
+    destruct (N.eqb_spec (p_name pr) (p_name q)) as [E|E]; [|exact Hl].
+    exfalso. pose proof (V2 _ _ Hq Eq Hr) as Hl2. rewrite <- E in Hl2. congruence.
+Qed.
+
+Lemma invV_step : forall st a st' o, invA st -> invW st -> invV st -> step st a = Some (st', o) -> invV st'.
+Proof.
+  intros st a st' o I W V H. step_cases H; qb; try assumption;
+    try (eapply invV_same; [| |exact V]; reflexivity).
+  - (* CloseProxy of an own name *)
+    assert (H1 : hold x name pid) by (left; unfold live_view; rewrite Hpc; exact Hown).
+    destruct (W _ _ _ _ Hx H1) as (pr & A & B & _).
+    eapply invV_same with (st := close_proxy st pid); [reflexivity|reflexivity|]. eapply invV_close; eauto.
+  - (* Run *)
+    destruct V as [V1 V2].
+    assert (F : alookup (next_pid st) (proxies st) = None).
+    { destruct (alookup (next_pid st) (proxies st)) eqn:E; [|reflexivity]. apply (A_pid _ I) in E. lia. }
+    apply andb_true_iff in Hrun. destruct Hrun as [_ Hl].
+    constructor; cbn [proxies vlis put set_sessions set_proxies set_next_pid set_vlis]; intros.
+    + destruct (pt_vis np) eqn:Ev.
+      * lkH H. destruct (N.eqb_spec n name).
+        -- subst. inv1 H. eexists. lk. rewrite N.eqb_refl. split; [reflexivity|]. simpl. auto.
+        -- destruct (V1 _ _ H) as (pr & A & B). exists pr. lk.
+           destruct (N.eqb_spec p (next_pid st)); [subst; congruence|auto].
+      * destruct (V1 _ _ H) as (pr & A & B). exists pr. lk.
+        destruct (N.eqb_spec p (next_pid st)); [subst; congruence|auto].
+    + lkH H. destruct (N.eqb_spec p (next_pid st)).
+      * subst. inv1 H. simpl in *. rewrite H0. lk. rewrite N.eqb_refl. reflexivity.
+      * pose proof (V2 _ _ H H0 H1) as Hv. destruct (pt_vis np) eqn:Ev; [|exact Hv]. lk.
+        destruct (N.eqb_spec (p_name pr) name) as [E|E]; [|exact Hv].
+        rewrite E in Hv. rewrite Hv in Hl. discriminate.
+  - (* rollback *)
+    assert (H1 : hold x name pid) by (right; unfold inflight; rewrite Hpc; reflexivity).
+    destruct (W _ _ _ _ Hx H1) as (pr & A & B & _).
+    eapply invV_same with (st := close_proxy st pid); [reflexivity|reflexivity|]. eapply invV_close; eauto.
+  - (* teardown picks an entry *)
+    assert (H1 : hold x pick pid) by (left; unfold live_view; rewrite Hpc; exact Hpick).
+    destruct (W _ _ _ _ Hx H1) as (pr & A & B & _).
+    eapply invV_same with (st := close_proxy st pid); [reflexivity|reflexivity|]. eapply invV_close; eauto.
+Qed.
+
+Lemma invF_init : forall m, invF (init_with m).
+Proof. intros m s x n p n' H. discriminate. Qed.
+Lemma invW_init : forall m, invW (init_with m).
+Proof. intros m s x n p H. discriminate. Qed.
+Lemma invV_init : forall m, invV (init_with m).
+Proof. intros m. constructor; simpl; intros; discriminate. Qed.
+
+Theorem invAFWV_reachable : forall m acts,
+  let st := run acts (init_with m) in invA st /\ invF st /\ invW st /\ invV st.
+Proof.
+  intro m. apply (reachable_ind' (fun st => invA st /\ invF st /\ invW st /\ invV st));
+    [split; [apply invA_init|split; [apply invF_init|split; [apply invW_init|apply invV_init]]]|].
+  intros st a st' o (I & F & W & V) H. split; [|split; [|split]];
+    [eapply invA_step|eapply invF_step|eapply invW_step|eapply invV_step]; eauto.
+Qed.
+
 (* ---------- non-interference: a step of another session never changes my entries ---------- *)
 Definition actor (a : action) : option N :=
   match a with
@@ -912,12 +1156,6 @@ Proof.
   - exists x. auto.
 Qed.
 
-Lemma proxies_close_other : forall st pid p, p <> pid ->
-  alookup p (proxies (close_proxy st pid)) = alookup p (proxies st).
-Proof.
-  intros. unfold close_proxy. destruct (alookup pid (proxies st)); [|reflexivity].
-  simpl. lk. destruct (N.eqb_spec p pid); [contradiction|reflexivity].
-Qed.
 
 Lemma other_owner : forall st s s0 x n p n0 pid,
   invA st -> alookup s (sessions st) = Some x -> alookup n (reg_view x) = Some p ->
@@ -1235,4 +1473,51 @@ Proof.
   pose proof (invA_reachable cfg acts) as I. fold st in I. destruct (A_view _ I _ _ _ _ Hx Hv) as [Hr _].
   destruct (add_race_loser_rolls_back st t y n q p pick Hy Hpc Hr) as (st1 & E & A & B & _ & y1 & Hy1 & S1 & _).
   exists st1. repeat split; auto. exists y1. auto.
+Qed.
+
+(* ---------- visitor listeners (stcp / sudp): the name stands for a working listener ---------- *)
+Theorem held_proxy_is_running : forall cfg acts s x n p,
+  let st := run acts (init_with cfg) in
+  alookup s (sessions st) = Some x -> hold x n p ->
+  exists pr, alookup p (proxies st) = Some pr /\ p_status pr = PRunning /\ p_owner pr = s /\ p_name pr = n.
+Proof. intros cfg acts s x n p st. destruct (invAFWV_reachable cfg acts) as (_ & _ & W & _). apply W. Qed.
+
+Theorem visitor_listener_iff_running : forall cfg acts,
+  let st := run acts (init_with cfg) in
+  (forall n p, alookup n (vlis st) = Some p ->
+     exists pr, alookup p (proxies st) = Some pr /\ p_vis pr = true /\ p_name pr = n /\ p_status pr = PRunning) /\
+  (forall p pr, alookup p (proxies st) = Some pr -> p_vis pr = true -> p_status pr = PRunning ->
+     alookup (p_name pr) (vlis st) = Some p).
+Proof. intros cfg acts st. destruct (invAFWV_reachable cfg acts) as (_ & _ & _ & [V1 V2]). split; assumption. Qed.
+
+(* a refused Run() (oracle failure or a listener of that name exists) changes nothing but the session's own pc/quota *)
+Theorem failed_run_changes_nothing : forall st t y n att np ro pick st' o,
+  alookup t (sessions st) = Some y -> s_spc y = SRun n att np ro ->
+  step st (AStep (TSess t) pick) = Some (st', o) ->
+  (exists e, o = [ONewProxyResp t n att e (negb (s_closed y))]) ->
+  pxys st' = pxys st /\ proxies st' = proxies st /\ vlis st' = vlis st /\
+  forall u, u <> t -> alookup u (sessions st') = alookup u (sessions st).
+Proof.
+  intros st t y n att np ro pick st' o Hy Hpc H [e He]. simpl in H. rewrite Hy in H. unfold step_sess in H. rewrite Hpc in H.
+  destruct (ro && _); inv1 H; [discriminate|].
+  simpl. repeat split; auto. intros u Hu. lk. destruct (N.eqb_spec u t); [contradiction|reflexivity].
+Qed.
+
+(* whatever the others do (including duplicate registrations that reach Run and fail, and their
+   roll-backs), the visitor listener of my running visitor-type proxy stays mine *)
+Theorem incumbent_keeps_its_listener : forall cfg acts2 acts s x n p pr,
+  let st := run acts (init_with cfg) in
+  Forall (fun a => actor a <> Some s) acts2 ->
+  alookup s (sessions st) = Some x -> alookup n (reg_view x) = Some p ->
+  alookup p (proxies st) = Some pr -> p_vis pr = true -> p_status pr = PRunning ->
+  alookup n (vlis (run acts2 st)) = Some p.
+Proof.
+  intros cfg acts2 acts s x n p pr st HF Hx Hv Hp Hvis Hr.
+  destruct (foreign_actions_keep_my_entries cfg acts2 acts s x n p HF Hx Hv) as (x2 & _ & _ & _ & P2).
+  fold st in P2. rewrite Hp in P2.
+  assert (E : run acts2 st = run (acts ++ acts2) (init_with cfg)) by (unfold st; rewrite run_app; reflexivity).
+  rewrite E in *. destruct (invAFWV_reachable cfg (acts ++ acts2)) as (_ & _ & _ & [_ V2]).
+  pose proof (V2 _ _ P2 Hvis Hr) as L.
+  destruct (A_view _ (invA_reachable cfg acts) _ _ _ _ Hx Hv) as [_ (pr' & Hp' & _ & Hn)]. fold st in Hp'.
+  replace pr' with pr in * by congruence. rewrite Hn in L. exact L.
 Qed.
